@@ -4,6 +4,7 @@ import (
 	"fmt"
 	"go/constant"
 	"go/types"
+	"regexp"
 	"strings"
 )
 
@@ -305,6 +306,24 @@ func sanitize(s string) string {
 
 func qsym(s string) string { return "|" + sanitize(s) + "|" }
 
+var reAliasWords = regexp.MustCompile(`\b(byte|rune|any)\b`)
+
+var typeKeyMemo = map[types.Type]string{}
+
 func typeKey(t types.Type) string {
-	return types.TypeString(t, func(p *types.Package) string { return p.Name() })
+	if k, ok := typeKeyMemo[t]; ok {
+		return k
+	}
+	s := types.TypeString(t, func(p *types.Package) string { return p.Name() })
+	s = reAliasWords.ReplaceAllStringFunc(s, func(w string) string {
+		switch w {
+		case "byte":
+			return "uint8"
+		case "rune":
+			return "int32"
+		}
+		return "interface{}"
+	})
+	typeKeyMemo[t] = s
+	return s
 }
